@@ -11,9 +11,10 @@ TABLE = {
     "C03": dict(profiles=["stamp"], want={"fresh", "once"},
                 theorems=["C03_stamp_unchanged", "C03_stamp_changed", "C03_newer_dep_forwards"]),
     "C05": dict(profiles=["failures"], want={"fail", "once"},
-                theorems=["C05_not_twice", "C05_stop", "C05_marked_failed", "C05_failed_is_dirty"]),
+                theorems=["C05_not_twice", "C05_stop", "C05_marked_failed", "C05_failed_is_dirty", "C05_dependent_of_failed_not_clean",
+                          "C05_failure_mark_survives_checks", "C05_job_failure_propagates", "C05_command_fails", "C05_script_fails_with_dep"]),
     "C11": dict(profiles=["override", "general", "defaults", "override"], want={"user", "fresh"},
-                theorems=["C11_user_file_untouched", "C11_check_readonly", "C11_record_only_own_target", "C11_queries_readonly"]),
+                theorems=["C11_build_protects", "C11_history_protects", "C11_user_write_protected", "C11_user_file_untouched", "C11_check_readonly", "C11_record_only_own_target", "C11_queries_readonly"]),
     "C14": dict(profiles=["ifcreate", "always"], want={"fresh", "once", "noop", "reason"},
                 theorems=["C14_ifcreate_existing_errors", "C14_ifcreate_absent_ok", "C14_always_newer", "C14_newer_dep_is_dirty"]),
     "C17": dict(profiles=["general", "stamp"], want={"query", "fresh"},
